@@ -40,6 +40,9 @@ import (
 	"encoding/json"
 	"errors"
 	"fmt"
+	"image"
+	"image/color"
+	"image/png"
 	"io"
 	"net"
 	"net/http"
@@ -120,6 +123,10 @@ type c13Server struct {
 	rows     int      // node of producer "rows": R rows "<k> <i>\n"
 	broken   int      // node of producer "broken": Write fails after 100 rows (stimulus only, never in a history)
 	R        int
+	imgs     []int // nodes of the image producers "img", "img2" (basics.Image)
+	side     int
+
+	badImage200 atomic.Int64 // image downloads answered 200 with a body that is not the png of one state
 
 	malformed200  atomic.Int64 // rows downloads answered 200 with a body that is not R rows of one k
 	malformedHead atomic.Int64 // rows downloads whose response head was garbage ("malformed ...")
@@ -128,8 +135,55 @@ type c13Server struct {
 const (
 	c13ModeRows   = 1
 	c13ModeBroken = 2
+	c13ModeImage  = 3
 	c13Foreign    = 999999996 // response token value for a 200 that is not one consistent artifact
+	c13BadImage   = 999999995 // ... for a 200 that is not the png of ONE state
 )
+
+// c13Render: the deterministic side x side image of value k.  Pixels (0,0),(1,0) carry k itself, every
+// other pixel is a function of (k,x,y) (noise-like, so the png is big and takes the encoder a while).
+func c13Pixel(k, x, y int) color.NRGBA {
+	switch {
+	case x == 0 && y == 0:
+		return color.NRGBA{uint8(k >> 24), uint8(k >> 16), uint8(k >> 8), 255}
+	case x == 1 && y == 0:
+		return color.NRGBA{uint8(k), 0x5a, 0xa5, 255}
+	}
+	h := uint32(k)*2654435761 + uint32(x)*40503 + uint32(y)*9973
+	h ^= h >> 13
+	h *= 0x5bd1e995
+	h ^= h >> 15
+	return color.NRGBA{uint8(h), uint8(h >> 8), uint8(h >> 16), 255}
+}
+
+func c13Render(k, side int) image.Image {
+	img := image.NewNRGBA(image.Rect(0, 0, side, side))
+	for y := 0; y < side; y++ {
+		for x := 0; x < side; x++ {
+			img.SetNRGBA(x, y, c13Pixel(k, x, y))
+		}
+	}
+	return img
+}
+
+// c13ParseImage: the k of a body that is the png of exactly one state (right size, every pixel = c13Pixel(k,x,y))
+func c13ParseImage(data []byte, side int) (int, bool) {
+	img, err := png.Decode(bytes.NewReader(data))
+	if err != nil || img.Bounds() != image.Rect(0, 0, side, side) {
+		return 0, false
+	}
+	at := func(x, y int) color.NRGBA { return color.NRGBAModel.Convert(img.At(x, y)).(color.NRGBA) }
+	p0, p1 := at(0, 0), at(1, 0)
+	k := int(p0.R)<<24 | int(p0.G)<<16 | int(p0.B)<<8 | int(p1.R)
+	for y := 0; y < side; y++ {
+		for x := 0; x < side; x++ {
+			if at(x, y) != c13Pixel(k, x, y) {
+				return 0, false
+			}
+		}
+	}
+	return k, true
+}
 
 // the many-row artifact: R rows "<k> <i>\n", written row by row like the mesh writers do
 type c13RowsArt struct{ k, n int }
@@ -258,7 +312,12 @@ func c13StartServer(c *Ctx) *c13Server {
 	g = append(g,
 		c13Desc{salt: 1 + c.Rng.Intn(1000), sc: []int{pool[c.Rng.Intn(len(pool))], pool[c.Rng.Intn(len(pool))]}, prod: true, name: "rows", mode: c13ModeRows, rowsN: R},
 		c13Desc{salt: 1 + c.Rng.Intn(1000), sc: []int{pool[c.Rng.Intn(len(pool))], pool[c.Rng.Intn(len(pool))]}, prod: true, name: "broken", mode: c13ModeBroken})
-	s := &c13Server{c: c, g: g, gate: c13NewGate(), pgate: c13NewGate(), next: 1000, rel: map[int]map[int]int{}, rows: rowsNode, broken: brokenNode, R: R}
+	side := 160 + 32*c.Rng.Intn(6) // 160..320
+	imgNode := len(g)
+	for _, name := range []string{"img", "img2"} {
+		g = append(g, c13Desc{salt: 1 + c.Rng.Intn(1000), sc: []int{pool[c.Rng.Intn(len(pool))], pool[c.Rng.Intn(len(pool))]}, prod: true, name: name, mode: c13ModeImage, rowsN: side})
+	}
+	s := &c13Server{c: c, g: g, gate: c13NewGate(), pgate: c13NewGate(), next: 1000, rel: map[int]map[int]int{}, rows: rowsNode, broken: brokenNode, R: R, imgs: []int{imgNode, imgNode + 1}, side: side}
 	files := map[string]nodes.NodeOutput[artifact.Artifact]{}
 	parPrefix := fmt.Sprintf("par-%d-%d-", os.Getpid(), c13ServerSerial) // recognisable in /schema: this is OUR server
 	s.b = c13BuildOpt(g, c13BuildOptions{prefixNames: true, files: files, gate: s.gate, pgate: s.pgate, parPrefix: parPrefix})
@@ -267,7 +326,7 @@ func c13StartServer(c *Ctx) *c13Server {
 			s.prods = append(s.prods, p)
 		}
 	}
-	s.seqProds = append(append([]int{}, s.prods...), s.rows)
+	s.seqProds = append(append([]int{}, s.prods...), s.rows, s.imgs[0])
 	memo := map[int]map[int]int{}
 	for _, p := range s.b.prods {
 		s.rel[p] = c13Paths(g, p, memo)
@@ -428,6 +487,9 @@ func (s *c13Server) doc(cl *http.Client, k c13Call) (string, int) {
 	if k.kind == 'a' && k.p == s.rows {
 		return s.doRows(cl, k)
 	}
+	if k.kind == 'a' && (k.p == s.imgs[0] || k.p == s.imgs[1]) {
+		return s.doImage(cl, k)
+	}
 	id, name := "Node-"+itoa(c13Unknown), c13UnknownNames[k.v%len(c13UnknownNames)]
 	if name == "" {
 		name = "p100"
@@ -492,6 +554,31 @@ func (s *c13Server) doRows(cl *http.Client, k c13Call) (string, int) {
 	}
 	s.malformed200.Add(1)
 	return "v " + itoa(c13Foreign), status
+}
+
+// doImage: download of an image producer (the repo's basics.Image), canonicalised at return time like doRows:
+// 200 and the png of exactly ONE state -> `v k` (k read from the first pixels, every pixel verified);
+// 200 and anything else (does not decode, wrong size, mixed) / garbage response head -> `v 999999995`;
+// non-200 (e.g. a recovered panic of the encoder) -> `err`.
+func (s *c13Server) doImage(cl *http.Client, k c13Call) (string, int) {
+	data, status, herr, berr := s.rawc(cl, http.MethodGet, "/producer/value/"+s.b.names[k.p], "")
+	if herr != nil {
+		if strings.Contains(herr.Error(), "malformed") {
+			s.badImage200.Add(1)
+			return "v " + itoa(c13BadImage), 200
+		}
+		return s.transportFailure(k, herr)
+	}
+	if status != 200 {
+		return "err", status
+	}
+	if berr == nil {
+		if kk, ok := c13ParseImage(data, s.side); ok {
+			return "v " + itoa(kk), status
+		}
+	}
+	s.badImage200.Add(1)
+	return "v " + itoa(c13BadImage), status
 }
 
 // graph description with the CURRENT parameter values (read sequentially, the server is quiescent)
@@ -1226,18 +1313,84 @@ func c13HTTPS6(s *c13Server, budget time.Duration) {
 	c.notes["http.S6.abandoned"] += int(abandoned.Load())
 }
 
-// time budgets of the time-bounded schedules, whole run (shared evenly by the servers)
-func c13HTTPBudgets(c *Ctx) (s5, s6 time.Duration) {
-	if c.Tier == "thorough" {
-		return 20 * time.Second, 30 * time.Second
+// ---- S8: image producers downloaded concurrently -----------------------------------------------------
+//
+// Window (<= 38 recorded requests): 4..6 clients (own connections) download `img` / `img2` 5 times each,
+// one client POSTs 8 unique values, alternately to a parameter img and one img2 depends on.
+func c13HTTPS8(s *c13Server, budget time.Duration) {
+	c := s.c
+	deadline := time.Now().Add(budget)
+	q0, _ := s.dependsOn(s.imgs[0], true)
+	q1, _ := s.dependsOn(s.imgs[1], true)
+	var dl []*http.Client
+	for i := 0; i < 6; i++ {
+		dl = append(dl, &http.Client{Timeout: 60 * time.Second, Transport: &http.Transport{MaxIdleConnsPerHost: 2, IdleConnTimeout: 5 * time.Second}})
 	}
-	return 2 * time.Second, 3 * time.Second
+	defer func() {
+		for _, cl := range dl {
+			cl.CloseIdleConnections()
+		}
+	}()
+	for time.Now().Before(deadline) && !c13HTTPDown() {
+		gstr, _ := s.snapshot()
+		if c13HTTPDown() {
+			return
+		}
+		h := &c13HTTPHist{s: s}
+		n := 4 + c.Rng.Intn(3)
+		vals := make([]int, 8)
+		for i := range vals {
+			vals[i] = s.unique()
+		}
+		start := make(chan struct{})
+		var wg sync.WaitGroup
+		for t := 0; t < n; t++ {
+			wg.Add(1)
+			go func(t int) {
+				defer wg.Done()
+				<-start
+				for j := 0; j < 5; j++ {
+					h.callc(dl[t], t, c13Call{kind: 'a', p: s.imgs[(t+j)%2]})
+				}
+			}(t)
+		}
+		wg.Add(1)
+		go func() {
+			defer wg.Done()
+			<-start
+			for i, v := range vals {
+				q := q0
+				if i%2 == 1 {
+					q = q1
+				}
+				h.call(9, c13Call{kind: 'u', p: q, v: v})
+				time.Sleep(time.Millisecond)
+			}
+		}()
+		close(start)
+		wg.Wait()
+		if c13HTTPDown() {
+			return
+		}
+		c.Note("http.S8.windows")
+		c.notes["http.S8.image-downloads"] += 5 * n
+		h.emit(gstr)
+	}
+}
+
+// time budgets of the time-bounded schedules, whole run (shared evenly by the servers)
+func c13HTTPBudgets(c *Ctx) (s5, s6, s8 time.Duration) {
+	if c.Tier == "thorough" {
+		return 20 * time.Second, 30 * time.Second, 20 * time.Second
+	}
+	return 2 * time.Second, 3 * time.Second, 2 * time.Second
 }
 
 func c13HTTP(c *Ctx) {
 	servers := 1 + c.N/300
-	b5, b6 := c13HTTPBudgets(c)
-	b5, b6 = b5/time.Duration(servers), b6/time.Duration(servers)
+	b5, b6, b8 := c13HTTPBudgets(c)
+	b5, b6, b8 = b5/time.Duration(servers), b6/time.Duration(servers), b8/time.Duration(servers)
+	s8 := func(s *c13Server) { c13HTTPS8(s, b8) }
 	s5 := func(s *c13Server) { c13HTTPS5(s, b5) }
 	s6 := func(s *c13Server) { c13HTTPS6(s, b6) }
 	rep := func(s *c13Server) {
@@ -1245,13 +1398,13 @@ func c13HTTP(c *Ctx) {
 			c13HTTPRepeated(s)
 		}
 	}
-	malformed200, malformedHead := 0, 0
+	malformed200, malformedHead, badImage := 0, 0, 0
 	for i := 0; i < servers && !c13HTTPDown(); i++ {
 		s := c13StartServer(c)
 		if s == nil {
 			break
 		}
-		for _, step := range []func(*c13Server){c13HTTPSeq, c13HTTPSchedules, c13HTTPSeq, c13HTTPRandom, s5, c13HTTPSeq, c13HTTPRandom, rep, s6} {
+		for _, step := range []func(*c13Server){c13HTTPSeq, c13HTTPSchedules, c13HTTPSeq, c13HTTPRandom, s5, c13HTTPSeq, c13HTTPRandom, rep, s8, s6} {
 			if !c13HTTPDown() {
 				step(s)
 			}
@@ -1259,10 +1412,12 @@ func c13HTTP(c *Ctx) {
 		s.client.CloseIdleConnections()
 		malformed200 += int(s.malformed200.Load())
 		malformedHead += int(s.malformedHead.Load())
+		badImage += int(s.badImage200.Load())
 	}
 	// both must be 0 on a correct server
 	c.notes["http.rows.malformed-200"] += malformed200
 	c.notes["http.rows.malformed-response-head"] += malformedHead
+	c.notes["http.image.bad-200"] += badImage
 	c.Note("http.note.requests-to-broken-and-abandoned-downloads-are-stimuli-not-events")
 	if msg := c13HTTPEnv.Load(); msg != nil {
 		kind := (*msg)[:strings.Index(*msg, ":")]
